@@ -202,8 +202,10 @@ class FNode(object):
 
         Optionally, check that the constant has the given value.
         """
+        if self.node_type() != BV_CONSTANT:
+            return False
         if value is None and width is None:
-            return self.node_type() == BV_CONSTANT
+            return True
 
         type_ = None if width is None else BVType(width=width)
         return self.is_constant(_type=type_, value=value)
